@@ -284,4 +284,135 @@ theorem src_copies_order_witness :
       ≠ look (run (srcCopyOps [{ wb with base := "a.f90".toList }, wa]) []) ["src".toList, "a.f90".toList] := by
   decide
 
+/-! ## include directories -/
+
+/-- Specification of the include look-up (`FortranReader.include`): the file is taken from the including
+    file's own directory if it is there, else from the *first* directory of the list that holds it. -/
+theorem include_first_hit_wins (has : Str → Bool) (own d : Str) (dirs : List Str)
+    (h : resolveInclude has own dirs = some d) :
+    has d = true ∧ ((d = own) ∨ (has own = false ∧ ∃ pre post, dirs = pre ++ d :: post ∧ ∀ x ∈ pre, has x = false)) := by
+  unfold resolveInclude at h
+  rw [List.find?_cons] at h
+  cases ho : has own with
+  | true =>
+    rw [ho] at h
+    simp at h
+    subst h
+    exact ⟨ho, Or.inl rfl⟩
+  | false =>
+    rw [ho] at h
+    simp only at h
+    obtain ⟨hd, pre, post, he, hpre⟩ := List.find?_eq_some_iff_append.mp h
+    refine ⟨hd, Or.inr ⟨rfl, pre, post, he, ?_⟩⟩
+    intro x hx
+    simpa using hpre x hx
+
+/-- Clause "regardless of string-hash randomisation" for `include` files, as the tree is: the reader keeps
+    and probes the configured directories in the order given (switch regenerated from the AST of
+    `FortranReader.__init__` / `include` on every run), so the file that is documented does not depend on
+    any iteration order `ω` — whatever the directories hold. -/
+theorem include_resolution_tree_deterministic (ω₁ ω₂ : List Str → List Str) (has : Str → Bool) (own : Str)
+    (cfg : List Str) : resolveIncludeTree ω₁ has own cfg = resolveIncludeTree ω₂ has own cfg := by
+  have h : Gen.C12.incDirsOrdered = true := by decide
+  simp [resolveIncludeTree, incDirsKept, h]
+
+/-- What holds even when the directories go through a hash-ordered collection: if at most one of them holds
+    the file, every iteration order finds the same file ... -/
+theorem include_resolution_perm_partial (has : Str → Bool) (own : Str) (d₁ d₂ : List Str) (hp : d₁.Perm d₂)
+    (hu : ∀ a b, a ∈ d₁ → b ∈ d₁ → has a = true → has b = true → a = b) :
+    resolveInclude has own d₁ = resolveInclude has own d₂ := by
+  unfold resolveInclude
+  rw [List.find?_cons, List.find?_cons]
+  cases has own with
+  | true => rfl
+  | false => exact find?_perm_unique has d₁ d₂ hp hu
+
+/-- ... and a file next to the including source file always wins. -/
+theorem include_own_dir_first (has : Str → Bool) (own : Str) (d₁ d₂ : List Str) (h : has own = true) :
+    resolveInclude has own d₁ = resolveInclude has own d₂ := by
+  simp [resolveInclude, List.find?_cons, h]
+
+/-- Two directories holding the file, iterated in hash order: the documented file depends on the order. -/
+theorem include_resolution_order_witness :
+    resolveInclude (fun d => d != "src".toList) "src".toList (incDirsKept false List.reverse ["a".toList, "b".toList])
+      ≠ resolveInclude (fun d => d != "src".toList) "src".toList (incDirsKept false id ["a".toList, "b".toList]) ∧
+    resolveInclude (fun d => d != "src".toList) "src".toList (incDirsKept true List.reverse ["a".toList, "b".toList])
+      = resolveInclude (fun d => d != "src".toList) "src".toList (incDirsKept true id ["a".toList, "b".toList]) := by
+  decide
+
+/-! ## inherited components and type-bound procedures -/
+
+/-- The inherited bindings keep the parent's declaration order ... -/
+theorem inherited_bindings_source_order (parent own : List Binding) :
+    (inheritedBindings parent own).Sublist parent := by
+  unfold inheritedBindings
+  exact List.filter_sublist
+
+/-- ... and are exactly the parent's bindings that are neither private nor overridden. -/
+theorem inherited_bindings_mem (parent own : List Binding) (bp : Binding) :
+    bp ∈ inheritedBindings parent own ↔ bp ∈ parent ∧ bp.priv = false ∧ overrides own bp = false := by
+  simp [inheritedBindings, List.mem_filter]
+
+/-- Source order is the *only* admissible result: any enumeration of the inherited bindings (for instance the
+    iteration order of a set of them) that respects the parent's declaration order is the model's list.  So
+    "the page lists them in declaration order" leaves no freedom that a hash seed could fill. -/
+theorem inherited_bindings_only_source_order (parent own l : List Binding) (hn : parent.Nodup)
+    (hperm : l.Perm (inheritedBindings parent own)) (hsub : l.Sublist parent) :
+    l = inheritedBindings parent own :=
+  sublist_perm_eq hsub (inherited_bindings_source_order parent own) hperm hn
+
+/-- Clause "regardless of string-hash randomisation" for the bindings and components a type shows, as the tree
+    is: the loops of `FortranType.correlate` that collect inherited entities walk the parent's lists (switch
+    regenerated from the AST on every run), so no iteration order `ω` is visible — for a single type ... -/
+theorem type_bindings_tree_deterministic (ω₁ ω₂ : List Binding → List Binding) (parent own : List Binding) :
+    typeBindings Gen.C12.inheritedIterOrdered ω₁ parent own = typeBindings Gen.C12.inheritedIterOrdered ω₂ parent own ∧
+    typeComps Gen.C12.inheritedIterOrdered ω₁ parent own = typeComps Gen.C12.inheritedIterOrdered ω₂ parent own := by
+  have h : Gen.C12.inheritedIterOrdered = true := by decide
+  simp [typeBindings, typeComps, h]
+
+/-- ... and along an inheritance chain of any depth. -/
+theorem chain_bindings_tree_deterministic (ω₁ ω₂ : List Binding → List Binding) (levels : List (List Binding)) :
+    chainBindings Gen.C12.inheritedIterOrdered ω₁ levels = chainBindings Gen.C12.inheritedIterOrdered ω₂ levels ∧
+    chainComps Gen.C12.inheritedIterOrdered ω₁ levels = chainComps Gen.C12.inheritedIterOrdered ω₂ levels := by
+  have h : Gen.C12.inheritedIterOrdered = true := by decide
+  simp [chainBindings, chainComps, typeBindings, typeComps, h]
+
+/-- What holds even when the inherited bindings are collected from a hash-ordered collection: with at most
+    one inherited binding there is only one order. -/
+theorem type_bindings_perm_partial (ω₁ ω₂ : List Binding → List Binding) (hω₁ : ∀ l, (ω₁ l).Perm l)
+    (hω₂ : ∀ l, (ω₂ l).Perm l) (parent own : List Binding) (h1 : (inheritedBindings parent own).length ≤ 1) :
+    typeBindings false ω₁ parent own = typeBindings false ω₂ parent own := by
+  simp only [typeBindings, Bool.false_eq_true, if_false]
+  have key : ∀ ω : List Binding → List Binding, (∀ l, (ω l).Perm l) →
+      ω (inheritedBindings parent own) = inheritedBindings parent own := by
+    intro ω hω
+    have hp := hω (inheritedBindings parent own)
+    match hi : inheritedBindings parent own, hp, h1 with
+    | [], hp, _ => exact List.perm_nil.mp hp
+    | [a], hp, _ => exact List.perm_singleton.mp hp
+    | _ :: _ :: _, _, h1 => simp at h1
+  rw [key ω₁ hω₁, key ω₂ hω₂]
+
+/-- Two inherited bindings collected in hash order: the page of the child lists them in either order. -/
+theorem type_bindings_order_witness :
+    typeBindings false List.reverse [⟨"area".toList, false⟩, ⟨"show".toList, false⟩, ⟨"init".toList, true⟩]
+        [⟨"Show".toList, false⟩, ⟨"scale".toList, false⟩]
+      = [⟨"area".toList, false⟩, ⟨"Show".toList, false⟩, ⟨"scale".toList, false⟩] ∧
+    typeBindings false List.reverse [⟨"area".toList, false⟩, ⟨"show".toList, false⟩] []
+      ≠ typeBindings false id [⟨"area".toList, false⟩, ⟨"show".toList, false⟩] [] ∧
+    typeBindings true List.reverse [⟨"area".toList, false⟩, ⟨"show".toList, false⟩] []
+      = typeBindings true id [⟨"area".toList, false⟩, ⟨"show".toList, false⟩] [] := by
+  decide
+
+/-! ## hash-ordered collections turned into sequences, anywhere in the package -/
+
+/-- Every place in `ford/*.py` where a syntactically hash-ordered collection (set, set operator on sets or dict
+    views, a name or attribute bound to one) is iterated, listed, joined or unpacked (table regenerated from the
+    sources on every run) goes through `sorted(...)`, or is one of the sites reviewed as order-insensitive, or is
+    the site of an open finding.  A new `list(set(..))` / `for x in a.keys() - b` makes this fail. -/
+theorem hash_iter_sites_all_reviewed :
+    ∀ s ∈ Gen.C12.hashIterSites,
+      s.2 = true ∨ s.1 ∈ reviewedHashIterSites ∨ s.1 ∈ defectiveHashIterSites := by
+  decide
+
 end Ford.C12
